@@ -827,6 +827,20 @@ impl<T: GseDecapMemory, C: CrcCalculator, MHEM: MandatoryHeaderExtensionManager>
     }
 }
 
+#[cfg(dvb_gse_verif)]
+/// Verification hooks (only compiled with `--cfg dvb_gse_verif`): snapshot / restore of the private label memory.
+impl<T: GseDecapMemory, C: CrcCalculator, MHEM: MandatoryHeaderExtensionManager>
+    Decapsulator<T, C, MHEM>
+{
+    pub fn verif_last_label(&self) -> Option<Label> {
+        self.last_label
+    }
+
+    pub fn verif_set_last_label(&mut self, label: Option<Label>) {
+        self.last_label = label;
+    }
+}
+
 /// GSE reading of 16b header
 ///
 /// Return the tuple (`gse_len`, `pktType`, `Label_type`) based on the input buffer
